@@ -30,6 +30,14 @@ theorem recover_exact (G : List Entry) (hG : Sorted G) (ops : List Op) (h : OpsO
     ∀ d ∈ crashDisks {} ops, reopen d = .ok { mem := smOf G (oidx d.lastApplied), disk := d } :=
   fun d hd => reopen_spec hG (crash_inv hG (Inv.init G) ops h d hd)
 
+/-- the crash points the harness exercises ("exactly `n` writes completed", `crashDiskAt`) are crash
+disks of `recover_exact`, and the judge's specification `specSM` is `smOf`: for every `n`, the
+reopened store is the specification at the applied position recorded on that disk -/
+theorem recover_exact_at (G : List Entry) (hG : Sorted G) (ops : List Op) (h : OpsOk G {} ops) (n : Nat) :
+    let d := crashDiskAt {} ops n
+    reopen d = .ok { mem := specSM G d.lastApplied, disk := d } :=
+  recover_exact G hG ops h _ (crashDiskAt_mem {} ops n)
+
 /-- the recovered applied position is the recorded one (and it is the id of a committed entry) -/
 theorem recovered_position (G : List Entry) (hG : Sorted G) (ops : List Op) (h : OpsOk G {} ops) :
     ∀ d ∈ crashDisks {} ops, (smOf G (oidx d.lastApplied)).lastApplied = d.lastApplied :=
